@@ -26,6 +26,8 @@ class _Result:
 class SimPool:
     def __init__(self, processes=None, durations=None, stalls=None, feed_depth=None,
                  default_chunksize=1, fail_at=None, log=None):
+        if processes is not None and int(processes) < 1:
+            raise ValueError("Number of processes must be at least 1")  # as multiprocessing.Pool
         self.W = max(1, int(processes or 1))
         self.durations = list(durations or [1.0])
         self.stalls = dict(stalls or {})  # task index -> extra simulated time
